@@ -1,7 +1,8 @@
 """run as a subprocess under a given PYTHONHASHSEED: reads a JSON list of matrix descriptions on stdin, prints one JSON line:
 {writer-key: [sha256 of the export of each matrix]}
 or reads {"ms": [descriptions], "order": [[configuration key, matrix index], ...]} and makes the exports in that order (the export
-history of this process); same output, over all configurations of c14.CONFIGS"""
+history of this process); same output, over all configurations of c14.CONFIGS
+or, with --serve, answers requests for exports made in fresh processes (see serve)"""
 import hashlib
 import json
 import os
@@ -19,6 +20,63 @@ def one(d, fmt, opts):
     except Exception as e:  # noqa
         return "EXC:" + type(e).__name__
 
+
+def serve():
+    """--serve: this process imports everything, exports NOTHING itself and answers one JSON line per request line:
+    {"ms": [descriptions], "runs": [[[matrix index, configuration key], ...], ...], "text": bool}
+    -> [[sha256 (or latin-1 text, or "EXC:<type>") of every export of the run], ...].
+    Every run is made in a child forked for it alone, i.e. in a process that has exported nothing before the first step of the
+    run (the state of a fresh interpreter after the imports).  Within a run every matrix index is ONE object, built at its first
+    use: a later step sees what an earlier step left in it and in the process."""
+    import gc
+    gc.collect()
+    gc.freeze()          # (what the imports left is shared with the children as it is)
+    for line in sys.stdin:
+        if not line.strip():
+            continue
+        job = json.loads(line)
+        pipes = []
+        for run in job["runs"]:
+            r, w = os.pipe()
+            pid = os.fork()
+            if pid == 0:
+                code = 0
+                try:
+                    os.close(r)
+                    for r0, _ in pipes:
+                        os.close(r0)
+                    dbs = {}
+                    res = []
+                    for k, key in run:
+                        fmt, opts = c14.CONFIGS[key]
+                        try:
+                            if k not in dbs:
+                                dbs[k] = c14.build(job["ms"][k])
+                            data = M.export_bytes(dbs[k], fmt, **opts)
+                            res.append(data.decode("latin-1") if job.get("text") else hashlib.sha256(data).hexdigest())
+                        except Exception as e:  # noqa
+                            res.append("EXC:" + type(e).__name__)
+                    with os.fdopen(w, "w") as f:
+                        f.write(json.dumps(res))
+                except BaseException:  # noqa
+                    code = 1
+                finally:
+                    os._exit(code)
+            os.close(w)
+            pipes.append((r, pid))
+        out = []
+        for r, pid in pipes:
+            with os.fdopen(r) as f:
+                data = f.read()
+            os.waitpid(pid, 0)
+            out.append(json.loads(data) if data else ["EXC:child died"])
+        sys.stdout.write(json.dumps(out) + "\n")
+        sys.stdout.flush()
+
+
+if "--serve" in sys.argv[1:]:
+    serve()
+    sys.exit(0)
 
 job = json.load(sys.stdin)
 out = {}
